@@ -2,10 +2,57 @@ HOOK_COMMITS = ["3b27975"]
 
 NOT_APPLICABLE = {}
 
+_T = "Trusted: encoding/csv as the definition of a CSV's rows; meow and s2 (part of the format); the in-memory objects.Store standing in for Badger; go1.26.8 instead of the baseline's go1.23.5."
+
 TEXT = {
  "C01": {
-  "technique": "deterministic simulation: real sorter+ingest worker pool under a seeded store-op scheduler in a synctest bubble, vs sort+dedupe reference model",
+  "technique": "deterministic simulation: real sorter + ingest worker pool under a seeded store-op scheduler in a synctest bubble, vs a sort+dedupe reference model",
   "level_text": "Seeded exploration: generated CSVs (quoting/collision alphabet, boundary row counts, duplicate/empty keys, cells up to and over 65535 bytes, rows over 64 KiB) x delimiter x spill size x worker count x store-operation schedule, each run compared cell-for-cell with an independent encoding/csv parse + sort/dedupe model, plus the C03 structural checker and the C06 write monitor. Sampling, not enumeration.",
-  "level_note": "Trusted: encoding/csv as the definition of the CSV's rows; meow and s2 (part of the format); the in-memory store stands in for Badger.",
+  "level_note": _T,
+ },
+ "C04": {
+  "technique": "reference-model conformance inside the simulator (seeded table-pair generator, map-by-key diff model, process isolation, shrinking); scheduler and fault injector add nothing for this pure function",
+  "level_text": "Seeded exploration of table pairs derived by edit scripts (edits at block edges, nested ranges, empty side, keyless, composite keys, 0-4 blocks, one or two stores); every diff event, its offsets (through BlockBuffer and raw decode), self-diff and argument-swap symmetry are checked against a map-by-key model.",
+  "level_note": _T + " BlockBuffer size comes from /proc/meminfo and never evicts here.",
+ },
+ "C07": {
+  "technique": "deterministic simulation: real ObjectSender -> packfile -> seeded chunking reader -> real ObjectReceiver between two simulated stores, byte-identity + C03 + empty-diff oracle, adversarial object orders",
+  "level_text": "Seeded exploration over source histories with shared blocks, destinations pre-populated with ancestor-closed commit subsets (with/without tables) and lone objects, tips, table depth, max packfile size from 1 byte, and read partitions of every packfile; plus reordered packfiles that the receiver must refuse without leaving the object behind.",
+  "level_note": _T,
+ },
+ "C08": {
+  "technique": "two-party protocol simulation: real ClosedSetsFinder.Process driven round by round with generated have batches, checked against a graph model with a store-read step budget",
+  "level_text": "Seeded exploration of server DAGs (<=48 commits incl. diamond chains, several roots, skewed/equal/reversed timestamps), ref tips, want sets, multi-round have batches with unknown hashes, depth 0-3 and shallow commits; closure, parent-first order, reachability, depth-limited table selection, refusal of unreachable wants and a polynomial read budget are checked; each case is repeated because Go map order inside the finder is not seedable.",
+  "level_note": _T + " The client side of the rounds is a generic generated client here; the real client sessions run in C09.",
+ },
+ "C11": {
+  "technique": "deterministic simulation with clock faults: histories authored under skewed / tied / reversed / backward-jumping timestamps, real IsAncestorOf / CommitsQueue walk / SeekCommonAncestor vs graph reachability model with a step budget",
+  "level_text": "Seeded exploration of DAGs up to 30 commits x 6 timestamp regimes; all ordered pairs for the ancestor test, a full walk from every commit, and 40 sampled 2-4-tuples per graph for the merge base. Graph shapes are sampled, not enumerated.",
+  "level_note": _T,
+ },
+ "C15": {
+  "technique": "reference-model conformance of the real SQL ref store on a real SQLite file, with reopen as an operation and statement-level SQL fault injection through a database/sql driver wrapper",
+  "level_text": "Seeded exploration of operation sequences (<=40) over a hostile name alphabet; every return value and, after every step, a full dump of refs and logs is compared with a map + per-name log model; injected SQL statement failures check that each method is atomic.",
+  "level_note": _T + " SQLite itself is trusted. The file store (reffs) is not covered yet.",
+ },
+ "C16": {
+  "technique": "deterministic simulation under the race detector: callers park at the objects.Store seam inside a synctest bubble, a seeded scheduler releases one at a time, harness synchronisation is hidden from the race runtime so happens-before comes from wrgl's own synchronisation only",
+  "level_text": "Seeded exploration, one OS process per case built with -race: multi-block tables x 3-16 workers x spill sizes x store-op schedules x 0-2 injected store errors; verdicts: data race in /repo frames, outcome equal to the 1-worker run, deadlock (synctest), panic, error propagation. Interleavings are sampled at store-operation granularity; data races are decided by happens-before and so do not depend on the sampled order.",
+  "level_note": _T + " Goroutines made runnable together inside one scheduler step are ordered by the Go runtime.",
+ },
+ "C18": {
+  "technique": "deterministic simulation of the transport: every decoder is run over a seeded partition of the byte stream (1-byte, header-straddling, random cuts, data+EOF) and compared with whole-buffer decoding",
+  "level_text": "Seeded exploration: 9 stream kinds (packfiles with objects at varint-boundary sizes, pkt-lines, commit, table, block, block index, profile, string list, uint list) x read partitions; identical decoded values, byte counts and end-of-stream condition required.",
+  "level_note": _T,
+ },
+ "C19": {
+  "technique": "knob-randomised reference-model conformance of the real external sorter (run size 1..inf, removed-column sets, three feed paths) with a per-run temp directory observed for leftover spill files",
+  "level_text": "Seeded exploration of row multisets (duplicate keys across spill files, composite keys with tying first component, keyless) x run sizes forcing 0..k spill files x removed columns before/after the key; both outputs compared with a sort+dedupe model and with each other; temp dir must be empty after Close.",
+  "level_note": _T,
+ },
+ "C20": {
+  "technique": "reference-model conformance of index.HashSet over a simulated file (os.File semantics, reopen) with on-file invariants checked after every flush",
+  "level_text": "Seeded exploration of Add/Flush/Has/Len/reopen sequences (<=200) over a 65-hash space with first bytes 00,01,7f,fe,ff and batch sizes 1..8/default; membership, Len, sortedness and fan-out consistency checked against a Go map after every flush and reopen; thorough tier also uses a real temp file.",
+  "level_note": _T,
  },
 }
